@@ -112,6 +112,9 @@ Example depblob_example :
   ids_ok l /\ decode_deps (encode_deps l) = Some l /\ length (encode_deps l) = 32%nat
   /\ decode_deps (encode_deps l ++ [0]) = None.
 Proof.
-  cbv zeta. split; [|split; [|split]]; try (vm_compute; reflexivity).
-  repeat constructor.
+  cbv zeta. split; [|split; [|split]].
+  - unfold ids_ok. repeat (constructor; [reflexivity|]). constructor.
+  - vm_compute. reflexivity.
+  - vm_compute. reflexivity.
+  - vm_compute. reflexivity.
 Qed.
